@@ -417,6 +417,10 @@ def run(case, ctx):
                 [x.encode('utf-8') for x in xs if x is not None]
             except UnicodeEncodeError:
                 variant = 'perm'
+            if variant == 'bytes' and any(x is not None and x.startswith(
+                    '\ufeff') for x in xs):
+                # (utf-8-sig would swallow that character: other examples)
+                variant = 'perm'
         before = random.getstate()
         if variant in ('series', 'series-cat'):
             import pandas as pd
